@@ -178,7 +178,7 @@ class RPCInterface:
         if not identifiers:
             self._raise(Faults.BAD_NAME, 'get_network_info',
                         f'identifier={identifier} is unknown to Supvisors')
-        return self.supvisors.mapper.instances[identifier].serial()
+        return self.supvisors.mapper.instances[identifiers[0]].serial()
 
     def get_all_instances_info(self) -> PayloadList:
         """ Get information about all **Supvisors** instances.
